@@ -35,6 +35,7 @@ FOCUS = {
     "C13": {"satcount": 12},
     "C14": {"onesat": 10, "paths": 10},
     "C15": {"node": 8, "cubeclause": 8, "var": 4, "const": 2},
+    "C17": {"gc": 8, "dump": 12, "ite": 2, "node": 2, "cubeclause": 2},
     "C16": {"bracket": 8, "dot": 8, "size": 3, "desc": 4, "satcount": 2, "onesat": 2, "paths": 2, "itec": 2, "implies": 2},
 }
 
@@ -61,6 +62,10 @@ TITLES = {
     "C14": "one_sat and paths describe exactly the satisfying set",
     "C15": "Constructors build the function they name",
     "C16": "Exports are faithful and every query leaves the manager untouched",
+    "C17": "The unique table is a sound hash-consing store under every put/collect history",
+    "C18": "The operation cache never returns a value stored under a different key",
+    "C19": "RawTable behaves as a hash map and stays memory-safe under every history",
+    "C20": "eda: arena conversion preserves expressions; Signal encoding is lossless",
 }
 
 
